@@ -14,6 +14,8 @@ SEED_OLD = """        if self._grad is None or not self.is_leaf:
 M = {
   "C11": {
     "fix-d4325f2-seed-alias": ("synapgrad/tensor.py", SEED_OLD, "        self.grad = grad\n", "tests/test_engine.py"),
+    "fix-d4325f2-full-revert": ("synapgrad/tensor.py", SEED_OLD, "        self.grad = grad\n", "tests/test_engine.py",
+                                [("synapgrad/tensor.py", "if child.requires_grad and (child._grad is None or not child.is_leaf):", "if child.requires_grad and child._grad is None:")]),
     "relu_backward-inplace-on-upstream": ("synapgrad/cpu_ops.py", "    return grad * (a > 0)\n", "    grad *= (a > 0)\n    return grad\n", "tests/test_activations.py"),
     "cross_entropy-shift-logits-inplace": ("synapgrad/cpu_ops.py", "    dlogits = softmax_forward(y_pred, 1)\n",
                                           "    dlogits = y_pred\n    dlogits -= dlogits.max(axis=1, keepdims=True)\n    dlogits = softmax_forward(dlogits, 1)\n", "tests/test_losses.py"),
@@ -50,13 +52,18 @@ def main():
     pid, repo = argv[0], argv[1]
     names = argv[2:] or list(M[pid])
     for name in names:
-        rel, old, new, tfile = M[pid][name]
+        rel, old, new, tfile = M[pid][name][:4]
+        more = M[pid][name][4] if len(M[pid][name]) > 4 else []
         sh("git -C %s checkout -- . && git -C %s reset -q --hard HEAD" % (repo, repo))
         path = os.path.join(repo, rel)
         src = open(path).read()
         if src.count(old) != 1:
             print("== %s: pattern occurs %d times, SKIPPED" % (name, src.count(old))); continue
         open(path, "w").write(src.replace(old, new))
+        for rel2, old2, new2 in more:
+            p2 = os.path.join(repo, rel2); s2 = open(p2).read()
+            assert s2.count(old2) == 1, (name, rel2)
+            open(p2, "w").write(s2.replace(old2, new2))
         rc, out = sh("cd %s && ./check %s" % (ROOT, pid), env={"VERIF_REPO": repo})
         viol = [l for l in out.splitlines() if l.startswith(("VIOLATION", "KNOWN-FINDING", "CHECK-ERROR"))]
         summ = [l for l in out.splitlines() if "done:" in l or "BUILD FAILED" in l or "TIE BROKEN" in l or "failing the effect" in l or "UNDOCUMENTED" in l or "TRANSLATOR" in l]
